@@ -346,8 +346,13 @@ func (s *Sim) runBody() {
 			} else if p.Shape == "starve" && s.chance(0.05) {
 				s.pickStallTarget()
 			}
-			d, ok := s.next(false)
+			d, ok := s.next(s.quietReset != nil)
 			if !ok {
+				if s.quietReset != nil {
+					// the quiet window after a system reset has drained
+					s.quietReset = nil
+					continue
+				}
 				break
 			}
 			s.step(d)
@@ -360,6 +365,7 @@ func (s *Sim) runBody() {
 		}
 	}
 	s.stallLeft = 0
+	s.quietReset = nil
 	s.finish()
 }
 
@@ -374,6 +380,10 @@ func (s *Sim) fatal() bool {
 
 // step executes one decision, settles, and runs the step invariants.
 func (s *Sim) step(d Decision) bool {
+	if d.K != "run" && d.K != "dlv" && d.K != "ans" {
+		// an external action ends the quiet window after a system reset
+		s.quietReset = nil
+	}
 	s.record(d)
 	ok := s.execute(d)
 	if !ok {
